@@ -53,10 +53,10 @@ fn main() {
     ck.set_threads(16);
     // constructors never touch memory they have not verified to exist: no crash attribution needed (it costs a file write per case)
     ck.set_slots(false);
-    ck.prop("constructors", ck.pick(300_000, 6_000_000), ctor::strategy, ctor::oracle);
+    ck.prop("constructors", ck.pick(400_000, 6_000_000), ctor::strategy, ctor::oracle);
     ck.set_slots(true);
-    ck.prop("programs", ck.pick(80_000, 2_000_000), prog_gen::prog, prog_oracle);
-    ck.prop("owned-programs", ck.pick(100_000, 3_000_000), prog_gen::owned_prog, owned_oracle);
+    ck.prop("programs", ck.pick(250_000, 3_000_000), prog_gen::prog, prog_oracle);
+    ck.prop("owned-programs", ck.pick(200_000, 3_000_000), prog_gen::owned_prog, owned_oracle);
     if ck.selected("storage-split") {
         let cases = owned::split_cases(ck.pick(3, 5) as usize);
         let n = cases.len() as u64;
